@@ -1,10 +1,11 @@
 (* Props/C19.v — ill-formed requests are rejected, not answered.
    For each operation: guard_<op> (the checks the code performs, Model/C19Guards.v) = decide (pre_<op>), i.e.
-   pre = false -> Err and pre = true -> Ok tt; where the code is still weaker (open / known findings A-28, C19-N11, C19-N18,
-   C19-N20; empty data in collapse; 0-element matricised operands): the full statement is refuted by a witness and the
+   pre = false -> Err and pre = true -> Ok tt; where the code is still weaker (known findings A-28, C19-N11, C19-N18;
+   empty data in collapse; 0-element matricised operands): the full statement is refuted by a witness and the
    partial statement is proved.  Only statements, `exact`, Print Assumptions. *)
 From Coq Require Import List ZArith Bool.
-From PV Require Import Np.NpZ Np.NpZ3 Gen.GenUtils Gen.GenUtils3 Model.C19Guards Proofs.C19Proofs Proofs.C19Ttv Proofs.C19More Proofs.C19W3 Proofs.C19Gen3.
+From PV Require Import Np.NpZ Np.NpZ3 Np.NpZ3e Gen.GenUtils Gen.GenUtils3 Gen.GenMethods3 Model.C19Guards Proofs.C19Proofs Proofs.C19Ttv Proofs.C19More
+  Proofs.C19W3 Proofs.C19Gen3 Proofs.C19W4.
 Import ListNotations.
 Local Open Scope Z_scope.
 
@@ -119,10 +120,33 @@ Proof. exact ktensor_arrange_decides. Qed.
 Print Assumptions C19_ktensor_arrange.
 Example C19_ktensor_arrange_ex : guard_ktensor_arrange 3 [2; 0; 1] = Ok tt /\ guard_ktensor_arrange 2 [0; 0] = Err /\ guard_ktensor_arrange 2 [-1; 0] = Err.
 Proof. repeat split; reflexivity. Qed.
-(* a single mode argument (ktensor.redistribute, C19-N07 repaired) *)
+(* a single mode argument (ktensor.redistribute, C19-N07 repaired; ktensor.normalize(mode)): the guard is Python's membership test
+   "mode in range(ndims)" on the enumerated modes, the precondition the comparison 0 <= mode < ndims *)
 Theorem C19_mode : forall s n, guard_mode s n = decide (pre_mode s n).
 Proof. exact mode_decides. Qed.
 Print Assumptions C19_mode.
+Example C19_mode_ex : guard_mode [2; 3; 4] 2 = Ok tt /\ guard_mode [2; 3; 4] 3 = Err /\ guard_mode [2; 3; 4] (-1) = Err /\ guard_mode [] 0 = Err.
+Proof. repeat split; reflexivity. Qed.
+(* the same over the GENERATED ktensor.redistribute (Gen/GenMethods3.v, regenerated from pyttb/ktensor.py on every run): on a
+   Kruskal tensor whose factor `mode` has one entry per weight in every row the method raises exactly when guard_mode does, i.e.
+   exactly when the precondition fails; a request outside the precondition is rejected whatever the receiver holds (a rejected
+   call yields no new state: the generated method is a function of the receiver) *)
+Theorem C19_mode_redistribute_gen : forall (k : ktz) (mode : Z),
+  (forall row, In row (znth [] (kt_factors k) mode) -> length row = length (kt_weights k)) ->
+  okres (ktensor_redistribute k mode) = guard_mode (kt_sizes k) mode /\
+  okres (ktensor_redistribute k mode) = decide (pre_mode (kt_sizes k) mode).
+Proof. exact redistribute_gen_guard. Qed.
+Print Assumptions C19_mode_redistribute_gen.
+Theorem C19_mode_redistribute_gen_rejects : forall (k : ktz) (mode : Z),
+  pre_mode (kt_sizes k) mode = false -> ktensor_redistribute k mode = Err.
+Proof. exact redistribute_gen_rejects. Qed.
+Print Assumptions C19_mode_redistribute_gen_rejects.
+Example C19_mode_redistribute_gen_ex :
+  kt_sizes (mkkt [2; 3] [[[1; 1]; [2; 0]]; [[1; 2]]]) = [2; 1] /\
+  okres (ktensor_redistribute (mkkt [2; 3] [[[1; 1]; [2; 0]]; [[1; 2]]]) 1) = Ok tt /\
+  ktensor_redistribute (mkkt [2; 3] [[[1; 1]; [2; 0]]; [[1; 2]]]) 2 = Err /\
+  ktensor_redistribute (mkkt [2; 3] [[[1; 1]; [2; 0]]; [[1; 2]]]) (-1) = Err.
+Proof. repeat split; reflexivity. Qed.
 Theorem C19_ktensor_extract : forall R idx, guard_ktensor_extract R idx = decide (pre_ktensor_extract R idx).
 Proof. exact ktensor_extract_decides. Qed.
 Print Assumptions C19_ktensor_extract.
@@ -293,6 +317,21 @@ Theorem C19_tenmat_ctor_partial : forall d rd cd ts, rows d = zprod (pickz ts rd
   guard_tenmat_ctor d rd cd ts = decide (pre_tenmat_ctor d rd cd ts).
 Proof. exact tenmat_ctor_partial. Qed.
 Print Assumptions C19_tenmat_ctor_partial.
+(* the constructor is answered EXACTLY when the mode lists partition the modes and the element count of the data is prod(tshape);
+   hence "answered although ill-formed" is exactly n11_region (partition, right count, other matrix shape) — the trigger of
+   C19-N11 — and every well-formed request is answered *)
+Theorem C19_tenmat_ctor_exact : forall d rd cd ts,
+  guard_tenmat_ctor d rd cd ts = decide (is_permb (ndim ts) (rd ++ cd) && (rows d * cols d =? zprod ts)).
+Proof. exact tenmat_ctor_exact. Qed.
+Print Assumptions C19_tenmat_ctor_exact.
+Theorem C19_tenmat_ctor_gap : forall d rd cd ts,
+  (is_ok (guard_tenmat_ctor d rd cd ts) && negb (pre_tenmat_ctor d rd cd ts)) = n11_region d rd cd ts /\
+  (pre_tenmat_ctor d rd cd ts = true -> guard_tenmat_ctor d rd cd ts = Ok tt).
+Proof. exact tenmat_ctor_gap. Qed.
+Print Assumptions C19_tenmat_ctor_gap.
+Example C19_tenmat_ctor_gap_ex : n11_region (6, 4) [2] [0; 1] [2; 3; 4] = true /\ n11_region (4, 6) [2] [0; 1] [2; 3; 4] = false
+  /\ n11_region (4, 7) [2] [0; 1] [2; 3; 4] = false /\ n11_region (1, 24) [2] [0; 1] [2; 3; 4] = true.
+Proof. repeat split; reflexivity. Qed.
 Example C19_tenmat_ctor_ex : guard_tenmat_ctor (4, 6) [2] [0; 1] [2; 3; 4] = Ok tt /\ guard_tenmat_ctor (4, 7) [2] [0; 1] [2; 3; 4] = Err
   /\ guard_tenmat_ctor (4, 6) [2] [0; 0] [2; 3; 4] = Err.
 Proof. repeat split; reflexivity. Qed.
@@ -365,18 +404,16 @@ Example C19_get_mttkrp_factors_ex :
   get_mttkrp_factors (USeq [[[1; 2]; [3; 4]]; [[1; 2; 3]; [4; 5; 6]]; [[1; 2]; [3; 4]]]) 2 3 = Err /\
   is_ok (get_mttkrp_factors (USeq [[[1; 2]; [3; 4]]; [[1; 2; 3]; [4; 5; 6]]; [[1; 2]; [3; 4]]]) 1 3) = true.
 Proof. split; reflexivity. Qed.
-(* mttkrp on a sparse tensor (C19-N09 repaired); with matrices that have NO column the row counts are never looked at
-   (C19-N20, open): exact when R = the column count of U[1] (U[0] when n <> 0) is positive *)
-Theorem C19_sptensor_mttkrp_refuted : ~ sptensor_mttkrp_stmt.
-Proof. exact sptensor_mttkrp_refuted. Qed.
-Print Assumptions C19_sptensor_mttkrp_refuted.
-Theorem C19_sptensor_mttkrp_partial : forall s us n,
-  0 < mttkrp_R us n -> guard_sptensor_mttkrp s us n = decide (pre_mttkrp s us n).
-Proof. exact sptensor_mttkrp_partial. Qed.
-Print Assumptions C19_sptensor_mttkrp_partial.
+(* mttkrp on a sparse tensor (C19-N09 repaired: the helper compares the column counts; C19-N20 repaired: the row counts are compared
+   before the loop over the columns, so matrices that have NO column are rejected too when a row count is wrong): exact for
+   every request *)
+Theorem C19_sptensor_mttkrp : forall s us n, guard_sptensor_mttkrp s us n = decide (pre_mttkrp s us n).
+Proof. exact sptensor_mttkrp_decides. Qed.
+Print Assumptions C19_sptensor_mttkrp.
 Example C19_sptensor_mttkrp_ex : guard_sptensor_mttkrp [2; 3; 4] [(2, 2); (3, 2); (4, 2)] 1 = Ok tt
   /\ guard_sptensor_mttkrp [2; 3; 4] [(2, 2); (3, 2); (4, 1)] 1 = Err /\ guard_sptensor_mttkrp [2; 3; 4] [(2, 2); (4, 2); (3, 2)] 0 = Err
-  /\ guard_sptensor_mttkrp [2; 2; 2] [(2, 2); (2, 3); (2, 2)] 2 = Err.
+  /\ guard_sptensor_mttkrp [2; 2; 2] [(2, 2); (2, 3); (2, 2)] 2 = Err
+  /\ guard_sptensor_mttkrp [2; 3; 4] [(2, 0); (5, 0); (4, 0)] 0 = Err /\ guard_sptensor_mttkrp [2; 3; 4] [(2, 0); (3, 0); (4, 0)] 0 = Ok tt.
 Proof. repeat split; reflexivity. Qed.
 (* sptensor.extract (C19-N17 repaired), for a rectangular subscript array with at least one row *)
 Theorem C19_sptensor_extract : forall s subs,
@@ -388,7 +425,22 @@ Example C19_sptensor_extract_ex : guard_sptensor_extract [2; 3] [[0; 2]; [1; 1]]
   /\ guard_sptensor_extract [2; 3] [[0; -1]; [1; 1]] = Err /\ guard_sptensor_extract [2; 3; 4] [[0; 2]; [1; 1]] = Err
   /\ guard_sptensor_extract [2; 3] [[0]; [1]] = Err /\ guard_sptensor_extract [3] [[0; 0]; [1; 1]] = Err.
 Proof. repeat split; reflexivity. Qed.
-(* sptensor.from_aggregator: a subscript array without elements skips the comparisons (C19-N18, known) *)
+(* sptensor.from_aggregator: the guard calls the GENERATED tt_subscheck / tt_valscheck / tt_sizecheck (Gen/GenUtils3.v) on the
+   arrays the method hands them; a subscript array without elements skips the comparisons (C19-N18, known) *)
+Theorem C19_from_aggregator_gen_checks : forall s subs nvals,
+  okres (tt_subscheck (nd_ints [zlen subs; zlen (hd [] subs)] (concat subs)) false) =
+    chk ((zlen subs * zlen (hd [] subs) =? 0) || forallb (forallb (fun x => 0 <=? x)) subs) /\
+  okres (tt_valscheck (nd_ints [nvals; 1] (np_full nvals 0)) false) = Ok tt /\
+  okres (tt_sizecheck (nd_ints [ndim s] s) false) = chk (all_pos s).
+Proof. exact from_aggregator_gen_checks. Qed.
+Print Assumptions C19_from_aggregator_gen_checks.
+Theorem C19_from_aggregator_gen_hand : forall s subs nvals, guard_from_aggregator s subs nvals = guard_from_aggregator_hand s subs nvals.
+Proof. exact from_aggregator_gen_hand. Qed.
+Print Assumptions C19_from_aggregator_gen_hand.
+(* a subscript array WITHOUT rows: only the shape is looked at, whatever the number of values (the region of C19-N18) *)
+Theorem C19_from_aggregator_no_rows : forall s nvals, guard_from_aggregator s [] nvals = decide (all_pos s).
+Proof. exact from_aggregator_no_rows. Qed.
+Print Assumptions C19_from_aggregator_no_rows.
 Theorem C19_from_aggregator_refuted : ~ from_aggregator_stmt.
 Proof. exact from_aggregator_refuted. Qed.
 Print Assumptions C19_from_aggregator_refuted.
@@ -399,7 +451,8 @@ Proof. exact from_aggregator_partial. Qed.
 Print Assumptions C19_from_aggregator_partial.
 Example C19_from_aggregator_ex : guard_from_aggregator [2; 3] [[0; 2]; [1; 1]] 2 = Ok tt /\ guard_from_aggregator [2; 3] [[0; 3]; [1; 1]] 2 = Err
   /\ guard_from_aggregator [2; 3] [[0; 2]; [1; 1]] 3 = Err /\ guard_from_aggregator [2; 3] [[0]; [1]] 2 = Err
-  /\ guard_from_aggregator [2; 3] [[0; 2; 0]; [1; 1; 0]] 2 = Err.
+  /\ guard_from_aggregator [2; 3] [[0; 2; 0]; [1; 1; 0]] 2 = Err /\ guard_from_aggregator [2; 3] [[0; -1]; [1; 1]] 2 = Err
+  /\ guard_from_aggregator [2; 0] [[0; 2]; [1; 1]] 2 = Err /\ guard_from_aggregator [2; 3] [] 2 = Ok tt.
 Proof. repeat split; reflexivity. Qed.
 
 (* gcp_opt: rank, optimizer and initial guess: "random", a Kruskal tensor, or a list of factor matrices (C19-N19 repaired: the
@@ -412,4 +465,68 @@ Example C19_gcp_opt_ex : guard_gcp_opt [3; 2] 2 (InitK [3; 2] 2) true = Ok tt /\
   /\ guard_gcp_opt [3; 2] 2 InitRandom false = Err /\ guard_gcp_opt [3; 2] 2 (InitList [(3, 2); (2, 3)]) true = Err
   /\ guard_gcp_opt [3; 2] 2 (InitList [(3, 2); (2, 2)]) true = Ok tt /\ guard_gcp_opt [3; 2] 2 (InitList [(3, 3); (2, 3)]) true = Err
   /\ guard_gcp_opt [3; 1] 2 (InitList [(3, 2); (3, 2)]) true = Err /\ guard_gcp_opt [3; 2] 0 (InitList [(3, 0); (2, 0)]) true = Err.
+Proof. repeat split; reflexivity. Qed.
+
+(* ---- wave 4: further operations ---- *)
+(* sptensor.innerprod(other), other a Kruskal / Tucker tensor: a receiver that stores no entry answers 0 before the shapes are
+   compared (C19-N21, open; repair proposed in fixes/C19-N21.diff); exact for a receiver with entries; the answered set is exactly
+   "no entry stored, or equal shapes" *)
+Theorem C19_sptensor_innerprod_kt_refuted : ~ sptensor_innerprod_kt_stmt.
+Proof. exact sptensor_innerprod_kt_refuted. Qed.
+Print Assumptions C19_sptensor_innerprod_kt_refuted.
+Theorem C19_sptensor_innerprod_kt_partial : forall s u,
+  guard_sptensor_innerprod_kt s false u = decide (pre_sptensor_innerprod s false u).
+Proof. exact sptensor_innerprod_kt_partial. Qed.
+Print Assumptions C19_sptensor_innerprod_kt_partial.
+Theorem C19_sptensor_innerprod_kt_exact : forall s e u, guard_sptensor_innerprod_kt s e u = decide (e || shape_eqb s u).
+Proof. exact sptensor_innerprod_kt_exact. Qed.
+Print Assumptions C19_sptensor_innerprod_kt_exact.
+Example C19_sptensor_innerprod_kt_ex : guard_sptensor_innerprod_kt [2; 3] false [2; 3] = Ok tt /\ guard_sptensor_innerprod_kt [2; 3] false [3; 2] = Err
+  /\ guard_sptensor_innerprod_kt [2; 3] true [3; 2] = Ok tt.
+Proof. repeat split; reflexivity. Qed.
+(* sptensor.contract / sptensor.nvecs: guard models of the code AS REPAIRED by fixes/C19-N22.diff / fixes/C19-N23.diff (today negative
+   modes wrap around in contract and nvecs ignores a mode that does not exist: C19-N22 / C19-N23, open) *)
+Theorem C19_sptensor_contract : forall s i1 i2, guard_sptensor_contract s i1 i2 = decide (pre_tensor_contract s i1 i2).
+Proof. exact sptensor_contract_decides. Qed.
+Print Assumptions C19_sptensor_contract.
+Theorem C19_sptensor_nvecs : forall s n, guard_sptensor_nvecs s n = decide (pre_mode s n).
+Proof. exact sptensor_nvecs_decides. Qed.
+Print Assumptions C19_sptensor_nvecs.
+Example C19_sptensor_contract_ex : guard_sptensor_contract [3; 2; 3] 0 2 = Ok tt /\ guard_sptensor_contract [3; 2; 3] 0 1 = Err
+  /\ guard_sptensor_contract [3; 2; 3] (-3) 2 = Err /\ guard_sptensor_contract [3; 3] (-2) 0 = Err /\ guard_sptensor_nvecs [2; 3] 2 = Err
+  /\ guard_sptensor_nvecs [2; 3] 1 = Ok tt.
+Proof. repeat split; reflexivity. Qed.
+(* sptensor.scale(factor, dims) over the generated tt_dimscheck: a receiver that stores no entry answers before the factor's shape is
+   compared (C19-N24, open; repair proposed in fixes/C19-N24.diff); exact for a receiver with entries; the answered set exactly *)
+Theorem C19_sptensor_scale_refuted : ~ sptensor_scale_stmt.
+Proof. exact sptensor_scale_refuted. Qed.
+Print Assumptions C19_sptensor_scale_refuted.
+Theorem C19_sptensor_scale_partial : forall s f d, guard_sptensor_scale s false f d = decide (pre_sptensor_scale s false f d).
+Proof. exact sptensor_scale_partial. Qed.
+Print Assumptions C19_sptensor_scale_partial.
+Theorem C19_sptensor_scale_exact : forall s e f d,
+  guard_sptensor_scale s e f d = decide (modes_ok (ndim s) d && (e || shape_eqb f (pickz s (np_sort d)))).
+Proof. exact sptensor_scale_exact. Qed.
+Print Assumptions C19_sptensor_scale_exact.
+Example C19_sptensor_scale_ex : guard_sptensor_scale [2; 3; 4] false [4; 2] [2; 0] = Err /\ guard_sptensor_scale [2; 3; 4] false [2; 4] [2; 0] = Ok tt
+  /\ guard_sptensor_scale [2; 3; 4] true [4; 2] [2; 0] = Ok tt /\ guard_sptensor_scale [2; 3; 4] true [2; 4] [2; 2] = Err.
+Proof. repeat split; reflexivity. Qed.
+(* ktensor.update(modes, data) (in place; C19-N25, open: today a request that fails at a later block has already overwritten the
+   earlier ones, modes below -1 wrap around and repeated modes are accepted): the guard model of the code AS REPAIRED by
+   fixes/C19-N25.diff (sortedness test, validation loop adding up the needed length, length test — all before the first
+   assignment) rejects exactly when the precondition fails *)
+Theorem C19_ktensor_update : forall s R modes dlen, guard_ktensor_update s R modes dlen = decide (pre_ktensor_update s R modes dlen).
+Proof. exact ktensor_update_decides. Qed.
+Print Assumptions C19_ktensor_update.
+Example C19_ktensor_update_ex : guard_ktensor_update [2; 3] 2 [-1; 0; 1] 12 = Ok tt /\ guard_ktensor_update [2; 3] 2 [0; 1] 9 = Err
+  /\ guard_ktensor_update [2; 3] 2 [0; 5] 10 = Err /\ guard_ktensor_update [2; 3] 2 [-2] 4 = Err /\ guard_ktensor_update [2; 3] 2 [0; 0] 8 = Err
+  /\ guard_ktensor_update [2; 3] 2 [1; 0] 10 = Err /\ guard_ktensor_update [2; 3] 2 [1] 7 = Ok tt.
+Proof. repeat split; reflexivity. Qed.
+(* X.mask(W) for dense, sparse and Kruskal receivers: the mask has the order of the receiver and no mode of it is longer
+   (tensor.mask: the code as repaired by fixes/C19-N26.diff; C19-N26, open: today a 1-way mask is broadcast against every mode) *)
+Theorem C19_mask : forall s w, guard_mask s w = decide (pre_mask s w).
+Proof. exact mask_decides. Qed.
+Print Assumptions C19_mask.
+Example C19_mask_ex : guard_mask [2; 3] [2; 2] = Ok tt /\ guard_mask [2; 3] [3; 2] = Err /\ guard_mask [2; 3] [2] = Err
+  /\ guard_mask [2; 3] [2; 3; 1] = Err /\ guard_mask [2; 3] [2; 3] = Ok tt.
 Proof. repeat split; reflexivity. Qed.
